@@ -274,23 +274,44 @@ theorem C17_all_histories_resolution (isBridge : Bool) (defs : List (SvcDef V P)
   ⟨listing_once _ hg, resolve_listed _ hg aid iid c h⟩
 
 /-- **Identifiers are stable in every accessory of every history.**  Split any unified history
-    in two.  An accessory registered under `k` after the first part is still registered after the
-    second part unless the second part removes it (`k = 1`, the top-level accessory, cannot be
-    removed), its iid counter has not gone back, every binding with an iid within the earlier
-    counter value already existed for the same object, and therefore an iid that had been issued
-    to an object `o` is never held by another object later — whether or not `o` was removed from
-    the manager in between. -/
+    in two.  An accessory registered under `k` after the first part is still registered under `k`
+    after the second part unless the second part removes it (`k = 1`, the top-level accessory,
+    cannot be removed); it is the same accessory (same aid, its objects in the same order followed
+    by those added since); its iid counter has not gone back, every binding with an iid within
+    the earlier counter value already existed for the same object, and therefore an iid that had
+    been issued to an object `o` is never held by another object later — whether or not `o` was
+    removed from the manager in between. -/
 theorem C17_iid_stable_all_histories (isBridge : Bool) (defs : List (SvcDef V P)) (pre post : List (OpU V P))
     (k : Nat) (a1 : Accessory V P)
     (h1 : ((Db.init isBridge defs).runU pre).accAt k = some a1)
     (hpost : k = STANDALONE_AID ∨ ∀ op ∈ post, op ≠ OpU.con (.removeAccessory k)) :
     ∃ a2, (((Db.init isBridge defs).runU pre).runU post).accAt k = some a2 ∧
+      a2.aid = a1.aid ∧ a1.objList <+: a2.objList ∧
       a1.iidm.counter ≤ a2.iidm.counter ∧
       (∀ o i, a2.iidm.iids o = some i → i ≤ a1.iidm.counter → a1.iidm.iids o = some i) ∧
       (∀ o o' i, a1.iidm.iids o = some i → a2.iidm.iids o' = some i → o' = o) := by
   have hg := C17_all_histories_invariant isBridge defs pre
-  obtain ⟨a2, e2, n⟩ := runU_noReissue _ hg post k a1 h1 hpost
-  exact ⟨a2, e2, n.1, n.2, fun o o' i e1 e3 => n.same_object (accAt_good hg h1) e1 e3⟩
+  obtain ⟨a2, e2, n, e3, e4⟩ := runU_noReissue _ hg post k a1 h1 hpost
+  exact ⟨a2, e2, e3, e4, n.1, n.2, fun o o' i e1 e3 => n.same_object (accAt_good hg h1) e1 e3⟩
+
+/-- **A listed pair denotes the same object for ever.**  If GET /accessories lists (aid, iid) for
+    object `o` at one point of a history and lists (aid, iid) again at a later point — the
+    accessory not having been removed from the bridge in between — it is for the same object `o`:
+    removing objects and adding new ones never moves an identifier to another object. -/
+theorem C17_listed_pair_stable (isBridge : Bool) (defs : List (SvcDef V P)) (pre post : List (OpU V P))
+    (aid iid o o' : Nat)
+    (h1 : ((some aid, some iid), o) ∈ ((Db.init isBridge defs).runU pre).listing)
+    (h2 : ((some aid, some iid), o') ∈ (((Db.init isBridge defs).runU pre).runU post).listing)
+    (hpost : aid = STANDALONE_AID ∨ ∀ op ∈ post, op ≠ OpU.con (.removeAccessory aid)) :
+    o' = o := by
+  have hg1 := C17_all_histories_invariant isBridge defs pre
+  have hg2 : (((Db.init isBridge defs).runU pre).runU post).Good := runU_good _ post hg1
+  obtain ⟨a1, e1, b1, _⟩ := listing_binding _ hg1 aid iid o h1
+  obtain ⟨a2', e2', b2, _⟩ := listing_binding _ hg2 aid iid o' h2
+  obtain ⟨a2, e2, _, _, _, _, same⟩ := C17_iid_stable_all_histories isBridge defs pre post aid a1 e1 hpost
+  rw [e2] at e2'
+  cases e2'
+  exact same o o' iid b1 b2
 
 /-- **A listed pair is readable and the read returns that characteristic's value.**  In a
     well-formed database (every state of every unified history), for a pair (aid, iid) that
